@@ -195,14 +195,15 @@ Print Assumptions C05_error_line_col.
         [\( \)] or [\[ \]] formula): the new construct runs into that closing
         delimiter and its collector rejects it THERE (unexpected closing brace /
         closing math delimiter);
-      - [}] inserted in a group, itself in a chain of directly nested groups
-        that stands in the top-level body or in a formula body
-        ([C05_fault_closing_brace_in_groups_partial]): every group of the chain
-        is closed one brace early, the error "unexpected closing brace" is AT
-        the closing brace of the outermost group of the chain.
+      - [}] inserted in a group or in the last argument of a macro call (an
+        argument read in the same math mode as the enclosing body), itself in a chain of
+        directly nested such constructs that stands in the top-level body or in a
+        formula body ([C05_fault_closing_brace_in_groups_partial]): every
+        construct of the chain is closed one brace early, the error "unexpected
+        closing brace" is AT the closing brace of the outermost one.
     NOT covered (differential testing only): [}] inserted in a macro argument
-    (it closes the argument early; what follows is read as the next argument or
-    in the enclosing body), [\)] / [\]] inside a formula of the same kind, [$]
+    that is not the last one or that changes the math mode (what follows is read
+    as the next argument / in another mode), [\)] / [\]] inside a formula of the same kind, [$]
     used as a closing delimiter, [{] inserted in a group or macro argument (the
     enclosing closing brace closes it), an opening delimiter inserted in a
     [$ $] formula, a math delimiter or math-body environment in front of items
@@ -313,17 +314,21 @@ Theorem C05_fault_opening_any_suffix_partial : forall cx path l1 fws op l2 tr c 
     /\ pe_pos e = Some q /\ pe_what e = stray_what c.
 Proof. exact fault_open_nested. Qed.
 
-(** ** A closing brace inserted in a group closes it early; the group's own
-    closing brace then closes the enclosing group, and so on outwards through
-    the chain of directly nested groups [chain] (outermost first; [outer] is the
-    path down to the body that holds the outermost of them, a body that is not
-    a group's or macro argument's: top level or a formula).  The closing brace
-    of the OUTERMOST group of the chain is the one that is rejected: with
-    [(L, W, R) = early chain l1 l2] — the faulted body reads as the items [L],
-    whitespace [W], the left-over brace, then [R] — the error is an
+(** ** A closing brace inserted in a group, or in the LAST argument of a macro
+    call when that argument is read in the same math mode as the enclosing body
+    ([thru cx im f], [im] = the enclosing body is in math mode), closes that
+    construct early; the construct's own
+    closing brace then closes the enclosing one, and so on outwards through the
+    chain [chain] of directly nested such constructs (outermost first; [outer] is
+    the path down to the body that holds the outermost of them, a body that is
+    not a group's or macro argument's: top level or a formula).  The closing
+    brace of the OUTERMOST construct of the chain is the one that is rejected:
+    with [(L, W, R) = early chain l1 l2] — the faulted body reads as the items
+    [L], whitespace [W], the left-over brace, then [R] — the error is an
     "unexpected closing brace" (2) located at that brace. *)
 Theorem C05_fault_closing_brace_in_groups_partial : forall cx outer chain l1 l2 dtr,
-  forallb is_grp chain = true -> chain <> [] -> closes_hole (lefts outer) SBrace = false ->
+  forallb (thru cx (f_in_math (ps_f (lp_state cx (walker_state cx) (lefts outer))))) chain = true ->
+  chain <> [] -> closes_hole (lefts outer) SBrace = false ->
   ok_doc cx (zdoc (outer ++ chain) l1 l2 dtr) = true ->
   let '(L, W, R) := early chain l1 l2 in
   let q := length (lp_text (lefts outer)) + length (unparse_items L) + length W in
@@ -428,22 +433,35 @@ Qed.
 
 (** [a $b {c {d e} f} g$ h]: a brace inserted between [d] and [ e] closes the
     inner group, the inner group's brace closes the outer one, the outer one's
-    brace (offset 16 of the faulted text) is rejected in the formula body *)
+    brace (offset 16 of the faulted text) is rejected in the formula body; and
+    [a \textbf{b {c d} e} f]: the same with a macro argument as the outer construct *)
 Example C05_fault_closing_brace_in_groups_nonvacuous :
   let outer := [FMath [Text [] [97]] [32] MDollar [] [Text [32] [104]]] in
   let chain := [FGrp [Text [] [98]] [32] [] [Text [32] [103]];
                 FGrp [Text [] [99]] [32] [] [Text [32] [102]]] in
   let l1 := [Text [] [100]] in let l2 := [Text [32] [101]] in
+  let chain2 := [FMac [Text [] [97]] [32] [116;101;120;116;98;102] [] [] [] [] [Text [32] [102]];
+                 FGrp [Text [] [98]] [32] [] [Text [32] [101]]] in
+  let m1 := [Text [] [99]] in let m2 := [Text [32] [100]] in
   ok_doc default_ctx (zdoc (outer ++ chain) l1 l2 []) = true /\
   unparse (zdoc (outer ++ chain) l1 l2 []) = [97;32;36;98;32;123;99;32;123;100;32;101;125;32;102;125;32;103;36;32;104] /\
   closes_hole (lefts outer) SBrace = false /\
   match early chain l1 l2 with
   | (L, W, R) => (length (lp_text (lefts outer)) + length (unparse_items L) + length W)%nat
   end = 16%nat /\
-  exists e, parse_top (zleft (outer ++ chain) l1 ++ [125] ++ zright (outer ++ chain) l2 []) false default_ctx
-                      (walker_state default_ctx) = PErr e 17
-            /\ pe_pos e = Some 16%nat /\ pe_what e = 2%nat.
-Proof. vm_compute. repeat split. eexists. repeat split. Qed.
+  (exists e, parse_top (zleft (outer ++ chain) l1 ++ [125] ++ zright (outer ++ chain) l2 []) false default_ctx
+                       (walker_state default_ctx) = PErr e 17
+             /\ pe_pos e = Some 16%nat /\ pe_what e = 2%nat) /\
+  forallb (thru default_ctx false) chain2 = true /\ ok_doc default_ctx (zdoc chain2 m1 m2 []) = true /\
+  unparse (zdoc chain2 m1 m2 []) = [97;32;92;116;101;120;116;98;102;123;98;32;123;99;32;100;125;32;101;125;32;102] /\
+  (exists e, parse_top (zleft chain2 m1 ++ [125] ++ zright chain2 m2 []) false default_ctx
+                       (walker_state default_ctx) = PErr e 21
+             /\ pe_pos e = Some 20%nat /\ pe_what e = 2%nat).
+Proof.
+  vm_compute. split; [reflexivity|]. split; [reflexivity|]. split; [reflexivity|]. split; [reflexivity|].
+  split; [eexists; repeat split|]. split; [reflexivity|]. split; [reflexivity|]. split; [reflexivity|].
+  eexists; repeat split.
+Qed.
 
 Print Assumptions C05_zdoc_text.
 Print Assumptions C05_fault_closing_partial.
